@@ -592,10 +592,52 @@ Proof.
   exists m'. repeat split; assumption.
 Qed.
 
-Lemma validated_samesite_scannable r line : make_cookie true r = Ok line -> samesite_scannable r.
+Lemma tchar_bare_safe c : tchar c = true -> bare_safe c = true.
 Proof.
-  intros Hm s Hs. apply make_cookie_inv in Hm as (_ & _ & _ & Hss & _).
-  unfold mc_samesite in Hss. rewrite Hs in Hss. cbn [andb] in Hss.
-  destruct (samesite_ok s) eqn:Eo; [|discriminate].
-  split; [apply samesite_ok_plain, Eo|apply samesite_ok_legal_plain, Eo].
+  unfold tchar. cbn [mem_n]. intros Ht. unfold bare_safe, is_delim.
+  repeat (apply orb_true_iff in Ht as [Ht|Ht]); lia.
+Qed.
+
+Lemma token_legal_plain s : forallb is_token s = true -> legal_plain s = true.
+Proof.
+  intros Ht. unfold legal_plain. apply forallb_forall. intros c Hc. rewrite forallb_forall in Ht. specialize (Ht c Hc).
+  destruct (token_props c Ht) as (Hl & _ & _ & Htc & _). rewrite Hl, (tchar_bare_safe c Htc). reflexivity.
+Qed.
+
+Lemma emitted_samesite_scannable validate r line : make_cookie validate r = Ok line -> samesite_scannable r.
+Proof.
+  intros Hm s Hs. destruct (emitted_samesite_checked validate r line Hm s Hs) as [Ho|Ht].
+  - split; [apply samesite_ok_plain, Ho|apply samesite_ok_legal_plain, Ho].
+  - split; [apply token_plain, Ht|apply token_legal_plain, Ht].
+Qed.
+
+Lemma validated_samesite_scannable r line : make_cookie true r = Ok line -> samesite_scannable r.
+Proof. apply emitted_samesite_scannable. Qed.
+
+Theorem webob_reads_own_line_any validate r line :
+  req_octets r -> plain (r_date r) = true -> cookie_date (r_date r) = true ->
+  make_cookie validate r = Ok line ->
+  parse_cookie_raw line = (r_name r, value_octets r) :: valued_attrs (requested r)
+  /\ parse_cookie line = [(r_name r, value_octets r)]
+  /\ exists m, cookie_load line = [(r_name r, m)] /\ pm_name m = r_name r /\ pm_value m = value_octets r.
+Proof.
+  intros Hro Hd Hcd Hm. pose proof (emitted_samesite_scannable validate r line Hm) as Hss.
+  exact (conj (webob_reads_own_line validate r line Hro Hd Hcd Hss Hm)
+              (conj (parse_cookie_own_line validate r line Hro Hd Hcd Hss Hm)
+                    (cookie_load_own_line validate r line Hro Hd Hcd Hss Hm))).
+Qed.
+
+(* ---------------------------------------------------------------- known finding: byte values that are not UTF-8 *)
+(* parse_cookie returns every byte value exactly (C07_pair_roundtrip); RequestCookies then decodes each pair as
+   strict UTF-8, so a value that is not UTF-8 is not readable through request.cookies - and takes the other cookies
+   of the header with it. *)
+Theorem request_cookies_non_utf8_refuted :
+  exists b, octets b /\ good_pair (H "6e"%string, b)
+    /\ parse_cookie (render [(H "61"%string, H "31"%string); (H "6e"%string, b); (H "63"%string, H "33"%string)])
+       = [(H "61"%string, H "31"%string); (H "6e"%string, b); (H "63"%string, H "33"%string)]
+    /\ request_cookies (render [(H "61"%string, H "31"%string); (H "6e"%string, b); (H "63"%string, H "33"%string)])
+       = Raise UnicodeDecodeError.
+Proof.
+  exists [255]. split; [repeat constructor|]. split; [split; [reflexivity|repeat constructor]|].
+  split; vm_compute; reflexivity.
 Qed.
